@@ -31,6 +31,10 @@ CHECKS["C20"] = dict(level="model_checking", ref="DESIGN.md §5 C20, §9", thoro
    text="every accepted document of the syntax families (all type terms up to weight 3 (4 thorough), rule headers, multi-rule documents, and a forced-repetition family that places the same sub-expression twice) is a state; every (child, parent) edge of its AST, produced by an independent walk of the public AST along the crate's documented containment table, is a transition on which the real ParentVisitor is queried: the answer must be the expected parent node itself (address identity; occurrence indicators compared field by field incl. span; literal values, which have no identity, must get the parent of an equal value), the index must build and the root must have no parent",
    note="purely structural oracle (the containment relation is read off the public AST types); literal Value nodes are by-value and cannot be told apart when equal",
    tech="bounded-exhaustive enumeration of documents x all parent/child edges, independent AST walk as reference")
+CHECKS["C15"] = dict(level="model_checking", ref="DESIGN.md §5 C15, §9", thorough=True,
+   text="every text of the syntax families (all type terms up to weight 3 (4 thorough), rule headers, multi-rule documents, tab/CRLF and multi-byte-comment respellings) and every single-character deletion / probe insertion / truncation of the small documents, plus duplicate-rule documents, is a state; accepted texts are checked on every span reachable in the public AST (range, character boundaries, line, nesting in the parent, sibling order without overlap, identifier text, rule start), rejected texts on the reported Position (inside the input, character boundaries, non-inverted, line/column recomputed from the index)",
+   note="invariant checking on the real parser; the only reference computations are line/column counting and span nesting",
+   tech="bounded-exhaustive enumeration of documents and of their single-edit mutants, state invariants on the real parser output")
 NA = {}
 def main():
     props=[json.loads(l)["id"] for l in open("/verif/properties.jsonl")]
